@@ -99,79 +99,69 @@ def nontrivial(case, obs):
     return any(l.startswith("(ok (") and l != "(ok ())" for l in obs)
 
 
-# finding F25 (text glued to a closing collector parenthesis, '(a)b': NotImplementedError) is repaired in the
-# parser; its witnesses stay in the corpus below
-def bracket_paren_tangle(path):
-    """the text opens a parenthesis directly inside an open bracket that is no keyword call ('[(a)]',
-    '[a=(x)]'), or closes a bracket while a parenthesis is the innermost open mark ('(]'): plain scan of the
-    unescaped, unquoted marks"""
-    stack, quote, esc, word = [], None, False, ""
-    for ch in path:
-        if esc:
-            esc = False
-            continue
-        if ch == "\\":
-            esc = True
-        elif quote:
-            if ch == quote:
-                quote = None
-        elif ch in "'\"":
-            quote = ch
-        elif ch == "[":
-            stack.append(ch)
-            word = ""
-            continue
-        elif ch == "(":
-            if stack and stack[-1] == "[" and not any(word.strip().lstrip("!").strip() == k[:-1] for k in KW_NAMES):
-                return True
-            stack.append(ch)
-        elif ch == "]":
-            if stack and stack[-1] == "(":
-                return True
-            if stack:
-                stack.pop()
-        elif ch == ")":
-            if stack and stack[-1] == "(":
-                stack.pop()
-        word = word + ch if ch not in "[]()" else ""
-    return False
-
-
-def untyped_segment(path, depth=0):
-    """the path (or a collector expression / search attribute inside it) parses to a segment that has no type, or
-    is COLLECTOR-typed without collector terms"""
+# findings F25 (text glued to a closing collector parenthesis, '(a)b') and F30 (brackets and parentheses closing
+# each other, a collector opened inside a [...] segment: '[(a)]', '(][max(())]', '[max()\\])') ended in
+# NotImplementedError; both are repaired in the parser.  Their witnesses stay in the corpus below and a stream of
+# tangled texts is part of every run (tangle_cases).
+def unsplittable_keyword_parameters(path, depth=0):
+    """the path (or a collector expression / search attribute inside it) parses to a keyword segment whose
+    parameter text SearchKeywordTerms.parameters cannot split (unbalanced quotes: ValueError)"""
     E = ec._ENV
-    from yamlpath.enums import PathSegmentTypes
     if depth > 6:
         return False
     try:
         segs = list(E["YAMLPath"](path)._parse_path(True))
     except Exception:  # noqa
         return False
-    for (t, a) in segs:
-        if t is None or (t is PathSegmentTypes.COLLECTOR and not isinstance(a, E["CollectorTerms"])):
+    for (_t, a) in segs:
+        if isinstance(a, E["SearchKeywordTerms"]):
+            try:
+                E["SearchKeywordTerms"](a.inverted, a.keyword, a._parameters).parameters
+            except ValueError:
+                return True
+            except Exception:  # noqa
+                pass
+        if isinstance(a, E["CollectorTerms"]) and unsplittable_keyword_parameters(a.expression, depth + 1):
             return True
-        if isinstance(a, E["CollectorTerms"]) and untyped_segment(a.expression, depth + 1):
-            return True
-        if isinstance(a, E["SearchTerms"]) and untyped_segment(a.attribute, depth + 1):
+        if isinstance(a, E["SearchTerms"]) and unsplittable_keyword_parameters(a.attribute, depth + 1):
             return True
     return False
 
 
-def f30_bracket_collector(case, obs):
-    """every crash of the case is the NotImplementedError of a segment without a usable type, in a path whose
-    parentheses and brackets are tangled ('[(a)]', '(][max(())]'); text merely glued to a collector ('(a)b',
-    the repaired F25) has no bracket and is NOT covered"""
+def f31_keyword_parameters(case, obs):
+    """F31: every crash of the case is the ValueError of SearchKeywordTerms.parameters on a parameter text with
+    unbalanced quotes that the parser let through ('[max(\\')]': the escaped parse strips the back-slash and the
+    stored text is a lone quote)"""
     vs = list(violations(case, obs))
-    return bool(vs) and all(line == "(raise (crash NotImplemented))" and bracket_paren_tangle(path)
-                            and untyped_segment(path) for path, _mode, line in vs)
+    return bool(vs) and all(line == "(raise (crash ValueError))" and unsplittable_keyword_parameters(path)
+                            for path, _mode, line in vs)
 
 
-FINDING_PREDS = {"bracket_collector_tangle": f30_bracket_collector}
+FINDING_PREDS = {"keyword_parameters_unbalanced": f31_keyword_parameters}
+
+TANGLE_TOKENS = ["(", ")", "[", "]", "'", "\\", "a", "b", "=", "max", "&", ".", "~", "/", "+", "!", "0", ":", "*"]
+
+
+def tangle_cases(tier, seed):
+    """malformed texts around brackets, parentheses, quotes and escapes: every token string of length <= 3 over
+    the eight marks, then seeded random token strings of length 3-10"""
+    import itertools
+    import random
+    rng = random.Random(seed * 31 + 15)
+    marks = ["(", ")", "[", "]", "'", "\\", "a", "max"]
+    paths = ["".join(t) for n in (1, 2, 3) for t in itertools.product(marks, repeat=n)]
+    for _ in range(6000 if tier == "thorough" else 900):
+        paths.append("".join(rng.choice(TANGLE_TOKENS) for _ in range(rng.randint(3, 10))))
+    paths = sorted(set(paths), key=lambda x: (len(x), x))
+    for i in range(0, len(paths), 30):
+        yield ("{a: 1, b: [2, 3], max: 4}", paths[i:i + 30])
 
 
 def corpus_chunks():
     yield [("{a: 1, b: 2}", ["(a)b", "(a)'b'", "a.(b)c"]), ("{a: 1, b: 2}", ["[(a)]", "(][max(())]", "a[(b)]"]),
+           ("{a: 1, b: 2}", ["[a=(b)]", "[a='(b)']", "[a='(b)'=c]", "[a=[b(c)]=d]", "[a=[(c)]=d]", "[max()\\])", "[max(])",
+                             "[()]", "[[(a)]]", "'a(b)'", "'[(a)]'", "(a[(b)])", "[max('a)]]"]),
+           ("{a: 1, b: 2}", ["[max(\\')]", "[has_child(\\\")]", "[!min(a\\')]"]),      # F31 (known)
            # keyword segments: the repaired defects and the seeded one
            ("x: {a: 1}", ["x[has_child(,)]", "x[!has_child(,)]"]), ("x: [[{a: 1}]]", ["x[0:1][0:1][0][max(a)]"]),
            ("x: {a: 1, b: 2}", ["x.*[parent()]", "x.**[parent()]", "x.*[parent(2)]"]),
@@ -191,6 +181,6 @@ def model_stats(case, outs):
 
 def chunks(tier, seed):
     import itertools
-    return ec.chunks_by_weight(itertools.chain(ec.gen_kw_cases(tier, seed),
+    return ec.chunks_by_weight(itertools.chain(tangle_cases(tier, seed), ec.gen_kw_cases(tier, seed),
                                                ec.gen_scalar_collector_cases(tier, seed),
                                                ec.gen_cases(tier, seed, with_collectors=True)))
